@@ -156,6 +156,18 @@ variable {K : Type} [LE K] [LT K] [Add K] [Sub K] [Mul K] [Div K] [Neg K] [OfNat
 /-- one vane of `spider` in the vane's own frame: blocked iff `x > 0 ∧ |y| < width/2` -/
 @[reducible] def vane (absK : K → K) (width x y : K) : Prop := x > 0 ∧ absK y < width / 2
 
+/-- one keystone segment (`_composite_keystone_aperture`, branch without wrap-around): the ring
+`circle(rin) XOR circle(rout)` intersected with the open angular interval `(lo, hi)` -/
+@[reducible] def keySector (rin rout lo hi r t : K) : Prop :=
+  ((r ≤ rin ∧ ¬ r ≤ rout) ∨ (¬ r ≤ rin ∧ r ≤ rout)) ∧ (t > lo ∧ t < hi)
+
 end prims
+
+section keyradii
+variable {K : Type} [Add K]
+/-- ring radii: `inner = previous outer + gap`, `outer = inner + ring width` -/
+def keyInner (outerPrev gap : K) : K := outerPrev + gap
+def keyOuter (inner width : K) : K := inner + width
+end keyradii
 
 end Model.C18
